@@ -511,36 +511,69 @@ func ruleFMT1(c *Ctx) {
 		return
 	}
 	tinfo := ti.Info
-	pro := findRowPrologue(tinfo, r.fd.Body)
-	if pro == nil || pro.tbl != r.modeVar {
-		c.bad(rule, "template/PushRune/row-prologue", ti.Pos(r.fd.Pos()), "PushRune does not locate the row with `i := t[state]; count := t[i]; i++; end := i+count`")
+	modeName := r.modeVar.Name()
+	if !rowReaderOK(tinfo, r.fd.Body, modeName) {
+		c.bad(rule, "template/PushRune/row-prologue", ti.Pos(r.fd.Pos()), "PushRune does not locate its row through the index vector (offset = t[state], then a length-prefixed row at t[offset])")
 		return
 	}
-	// header reads and skip
-	var flagsVar, cntVar string
+	defs := localDefs(tinfo, r.fd.Body)
+	// header: two reads t[c+0], t[c+1] assigned to locals before the action loop, with the same
+	// cursor c, followed by c += H
+	type hdrRead struct {
+		v    string
+		base string
+		off  int64
+		pos  token.Pos
+	}
+	var hdr []hdrRead
+	var flagConstUse string
+	ast.Inspect(r.fd.Body, func(n ast.Node) bool {
+		as, ok := n.(*ast.AssignStmt)
+		if !ok || as.Tok != token.DEFINE || len(as.Lhs) != len(as.Rhs) || (r.loop != nil && as.Pos() > r.loop.Pos()) {
+			return true
+		}
+		for k, rhs := range as.Rhs {
+			ix, ok := stripConv(tinfo, rhs).(*ast.IndexExpr)
+			if !ok || usesObj(tinfo, ix.X) != r.modeVar {
+				continue
+			}
+			if b, off, ok := addConst(tinfo, stripConv(tinfo, ix.Index)); ok {
+				hdr = append(hdr, hdrRead{exprString(as.Lhs[k]), b, off, as.Pos()})
+			}
+		}
+		return true
+	})
+	// the flags variable is the one tested with `& const`
+	ast.Inspect(r.fd.Body, func(n ast.Node) bool {
+		if be, ok := n.(*ast.BinaryExpr); ok && be.Op == token.AND {
+			if _, isConst := usesObj(tinfo, be.Y).(*types.Const); isConst {
+				flagConstUse = exprString(ast.Unparen(be.X))
+			}
+		}
+		return true
+	})
+	var flagsVar, cntVar, cursor string
+	for _, h := range hdr {
+		if h.v == flagConstUse && h.off == 0 {
+			flagsVar, cursor = h.v, h.base
+		}
+	}
+	for _, h := range hdr {
+		if h.base == cursor && h.off == 1 && cursor != "" {
+			cntVar = h.v
+		}
+	}
 	headerSkip := int64(-1)
-	var searchK string
 	stride1, stride2 := int64(-1), int64(-1)
-	var stride2Var string
+	var searchK, stride2Var string
 	ast.Inspect(r.fd.Body, func(n ast.Node) bool {
 		as, ok := n.(*ast.AssignStmt)
 		if !ok || len(as.Lhs) != 1 || len(as.Rhs) != 1 {
 			return true
 		}
 		lhs := exprString(as.Lhs[0])
-		rhs := stripConv(tinfo, as.Rhs[0])
-		if ix, ok := rhs.(*ast.IndexExpr); ok && usesObj(tinfo, ix.X) == r.modeVar && as.Tok == token.DEFINE {
-			if b, k, ok := addConst(tinfo, ix.Index); ok && b == pro.idx && lhs != pro.cnt && as.Pos() < r.sw.Pos() && (r.loop == nil || as.Pos() < r.loop.Pos()) {
-				if k == 0 {
-					flagsVar = lhs
-				}
-				if k == 1 {
-					cntVar = lhs
-				}
-			}
-		}
-		if as.Tok == token.ADD_ASSIGN && lhs == pro.idx {
-			if k, ok := intLit(tinfo, as.Rhs[0]); ok && as.Pos() < r.sw.Pos() && headerSkip == -1 {
+		if as.Tok == token.ADD_ASSIGN && lhs == cursor {
+			if k, ok := intLit(tinfo, as.Rhs[0]); ok && (r.loop == nil || as.Pos() < r.loop.Pos()) && headerSkip == -1 {
 				headerSkip = k
 			}
 			if be, ok := ast.Unparen(as.Rhs[0]).(*ast.BinaryExpr); ok && be.Op == token.MUL {
@@ -552,9 +585,11 @@ func ruleFMT1(c *Ctx) {
 			}
 		}
 		if as.Tok == token.DEFINE {
-			if be, ok := ast.Unparen(as.Rhs[0]).(*ast.BinaryExpr); ok && be.Op == token.ADD && exprString(ast.Unparen(be.X)) == pro.idx {
+			if be, ok := ast.Unparen(as.Rhs[0]).(*ast.BinaryExpr); ok && be.Op == token.ADD && exprString(ast.Unparen(be.X)) == cursor {
 				if mul, ok := ast.Unparen(be.Y).(*ast.BinaryExpr); ok && mul.Op == token.MUL {
 					if k, ok := intLit(tinfo, mul.Y); ok {
+						stride1, searchK = k, lhs
+					} else if k, ok := intLit(tinfo, mul.X); ok {
 						stride1, searchK = k, lhs
 					}
 				}
@@ -562,77 +597,77 @@ func ruleFMT1(c *Ctx) {
 		}
 		return true
 	})
-	c.check(flagsVar != "" && cntVar != "" && headerSkip == int64(headerWords), rule, "template/PushRune/header", ti.Pos(pro.pos),
+	c.check(flagsVar != "" && cntVar != "" && headerSkip == int64(headerWords), rule, "template/PushRune/header", ti.Pos(r.fd.Pos()),
 		fmt.Sprintf("reader takes flags at +0, transition count at +1 and skips %d header words, as written", headerSkip),
 		fmt.Sprintf("reader header (flags var %q at +0, count var %q at +1, skip %d) disagrees with the %d header words written", flagsVar, cntVar, headerSkip, headerWords))
 	transArity := int64(len(tri))
 	c.check(stride1 == transArity && stride2 == transArity && stride2Var == cntVar, rule, "template/PushRune/transition-stride", ti.Pos(r.fd.Pos()),
 		fmt.Sprintf("binary search steps by %d words and the action section starts %s*%d words later: equal to the %d words written per transition", stride1, stride2Var, stride2, transArity),
 		fmt.Sprintf("strides: search %d, skip %s*%d; writer emits %d words per transition and the count is %q", stride1, stride2Var, stride2, transArity, cntVar))
-	// roles of offsets inside the search
+	// roles of offsets inside the search: follow reads through locals into comparisons with the rune
 	if searchK != "" {
+		runeParam := paramObj(tinfo, r.fd, 0)
 		roles := map[int64]string{}
-		par := parents(r.fd)
-		for _, u := range indexUses(tinfo, r.fd.Body, r.modeVar) {
-			if u.base != searchK {
-				continue
+		offOf := func(e ast.Expr) (int64, bool) {
+			e = resolveVia(tinfo, defs, e)
+			ix, ok := e.(*ast.IndexExpr)
+			if !ok || usesObj(tinfo, ix.X) != r.modeVar {
+				return 0, false
 			}
-			role := "?"
-			// climb conversions to a comparison or an assignment
-			var q ast.Node = u.node
-			for {
-				pn := par[q]
-				if call, ok := pn.(*ast.CallExpr); ok && len(call.Args) == 1 {
-					q = call
-					continue
-				}
-				if pe, ok := pn.(*ast.ParenExpr); ok {
-					q = pe
-					continue
-				}
-				switch x := pn.(type) {
-				case *ast.BinaryExpr:
-					right := x.Y == q
-					switch x.Op {
-					case token.GEQ, token.GTR: // r >= X (lower) when X on the right
-						if right {
-							role = "lower"
-						} else {
-							role = "upper"
-						}
-						if x.Op == token.GTR {
-							if right {
-								role = "upper" // r > X : X is an upper bound being exceeded
-							} else {
-								role = "lower"
-							}
-						}
-					case token.LEQ, token.LSS:
-						if right {
-							role = "upper"
-						} else {
-							role = "lower"
-						}
-						if x.Op == token.LSS {
-							if right {
-								role = "lower" // r < X : X is a lower bound not reached
-							} else {
-								role = "upper"
-							}
-						}
-					}
-				case *ast.AssignStmt:
-					if fv, _ := selField(tinfo, x.Lhs[0]); fv != nil {
-						role = "store:" + fv.Name()
-					}
-				}
-				break
-			}
-			if prev, ok := roles[u.off]; ok && prev != role {
+			b, off, ok := addConst(tinfo, stripConv(tinfo, ix.Index))
+			return off, ok && b == searchK
+		}
+		addRole := func(off int64, role string) {
+			if prev, ok := roles[off]; ok && prev != role {
 				role = prev + "|" + role
 			}
-			roles[u.off] = role
+			roles[off] = role
 		}
+		ast.Inspect(r.fd.Body, func(n ast.Node) bool {
+			switch x := n.(type) {
+			case *ast.BinaryExpr:
+				var other ast.Expr
+				op := x.Op
+				if usesObj(tinfo, ast.Unparen(x.X)) == runeParam {
+					other = x.Y
+				} else if usesObj(tinfo, ast.Unparen(x.Y)) == runeParam {
+					other = x.X
+					switch op { // normalise to r OP other
+					case token.LSS:
+						op = token.GTR
+					case token.GTR:
+						op = token.LSS
+					case token.LEQ:
+						op = token.GEQ
+					case token.GEQ:
+						op = token.LEQ
+					}
+				} else {
+					return true
+				}
+				off, ok := offOf(other)
+				if !ok {
+					return true
+				}
+				switch op {
+				case token.GEQ, token.LSS: // r >= X, r < X : X is the lower bound
+					addRole(off, "lower")
+				case token.LEQ, token.GTR: // r <= X, r > X : X is the upper bound
+					addRole(off, "upper")
+				}
+			case *ast.AssignStmt:
+				for k, rhs := range x.Rhs {
+					if k < len(x.Lhs) {
+						if fv, _ := selField(tinfo, x.Lhs[k]); fv != nil {
+							if off, ok := offOf(rhs); ok {
+								addRole(off, "store:"+fv.Name())
+							}
+						}
+					}
+				}
+			}
+			return true
+		})
 		okRoles := roles[0] == "lower" && roles[1] == "upper" && strings.HasPrefix(roles[2], "store:state")
 		c.check(okRoles, rule, "template/PushRune/transition-roles", ti.Pos(r.fd.Pos()),
 			"word +0 is compared as the lower bound, +1 as the upper bound, +2 is stored as the next state",
@@ -1031,20 +1066,56 @@ func ruleFMT5(c *Ctx) {
 			"the dedup key encodes every element of the row with a self-delimiting encoding ("+why+"): equal keys imply equal rows",
 			"row dedup key may identify different rows: "+why)
 	}
+	// field roles of the row store, by type (names are free): the slice of stored rows, the map
+	// index -> offset, the map key -> offset, the last index
+	var rowsF, idxF, keyF, lastF *types.Var
+	if tn, ok := pk.Types.Scope().Lookup("table").(*types.TypeName); ok {
+		if st, ok := tn.Type().Underlying().(*types.Struct); ok {
+			for k := 0; k < st.NumFields(); k++ {
+				f := st.Field(k)
+				switch u := f.Type().Underlying().(type) {
+				case *types.Slice:
+					rowsF = f
+				case *types.Map:
+					if isString(u.Key()) {
+						keyF = f
+					} else {
+						idxF = f
+					}
+				case *types.Basic:
+					if u.Info()&types.IsInteger != 0 {
+						lastF = f
+					}
+				}
+			}
+		}
+	}
+	isF := func(e ast.Expr, f *types.Var) bool { fv, _ := selField(info, e); return fv != nil && (fv == f || fv.Origin() == f) }
+	if rowsF == nil || idxF == nil || keyF == nil || lastF == nil {
+		c.unres(rule, "codegen.table/fields", "", "the row store does not have the expected fields (rows slice, index map, key map, last index)")
+		return
+	}
 	// AddRow
 	_, ar := p.FuncDecl("internal/codegen", "table.AddRow")
 	if ar == nil {
 		c.unres(rule, "codegen.table.AddRow", "", "function not found")
 	} else {
 		rowParam := paramObj(info, ar, 1)
+		idxParam := paramObj(info, ar, 0)
+		defs := localDefs(info, ar.Body)
 		var lenApp, rowApp *ast.CallExpr
 		var idxNew, idxOld *ast.AssignStmt
+		isLenRows := func(e ast.Expr) bool {
+			e = resolveVia(info, defs, e)
+			call, ok := e.(*ast.CallExpr)
+			return ok && builtinName(info, call) == "len" && isF(call.Args[0], rowsF)
+		}
 		ast.Inspect(ar.Body, func(n ast.Node) bool {
 			as, ok := n.(*ast.AssignStmt)
 			if !ok || len(as.Lhs) != 1 || len(as.Rhs) != 1 {
 				return true
 			}
-			if call, ok := as.Rhs[0].(*ast.CallExpr); ok && builtinName(info, call) == "append" && isField(info, as.Lhs[0], "internal/codegen", "table", "arr") {
+			if call, ok := as.Rhs[0].(*ast.CallExpr); ok && builtinName(info, call) == "append" && isF(as.Lhs[0], rowsF) {
 				if call.Ellipsis.IsValid() && usesObj(info, call.Args[1]) == rowParam {
 					rowApp = call
 				} else if len(call.Args) == 2 {
@@ -1053,8 +1124,8 @@ func ruleFMT5(c *Ctx) {
 					}
 				}
 			}
-			if ix, ok := as.Lhs[0].(*ast.IndexExpr); ok && isField(info, ix.X, "internal/codegen", "table", "index") {
-				if call, ok := as.Rhs[0].(*ast.CallExpr); ok && builtinName(info, call) == "len" && isField(info, call.Args[0], "internal/codegen", "table", "arr") {
+			if ix, ok := as.Lhs[0].(*ast.IndexExpr); ok && isF(ix.X, idxF) && usesObj(info, ix.Index) == idxParam {
+				if isLenRows(as.Rhs[0]) {
 					idxNew = as
 				} else {
 					idxOld = as
@@ -1062,34 +1133,61 @@ func ruleFMT5(c *Ctx) {
 			}
 			return true
 		})
-		okAdd := lenApp != nil && rowApp != nil && idxNew != nil && idxOld != nil && lenApp.Pos() < rowApp.Pos() && idxNew.Pos() < lenApp.Pos()
+		okAdd := lenApp != nil && rowApp != nil && idxNew != nil && lenApp.Pos() < rowApp.Pos()
+		if okAdd {
+			// the offset must be len(rows) as it was BEFORE the appends: either the assignment or the
+			// local it reads is evaluated first
+			at := idxNew.Pos()
+			if id, ok := ast.Unparen(idxNew.Rhs[0]).(*ast.Ident); ok {
+				ast.Inspect(ar.Body, func(n ast.Node) bool {
+					if as, ok := n.(*ast.AssignStmt); ok && len(as.Lhs) == 1 && usesObj(info, as.Lhs[0]) == info.Uses[id] {
+						at = as.Pos()
+					}
+					return true
+				})
+			}
+			okAdd = at < lenApp.Pos()
+		}
 		c.check(okAdd, rule, "codegen.table.AddRow", p.Pos(ar.Pos()),
-			"a new row is stored as [len(row)] ++ row and indexed by the offset of its length word; a duplicate re-uses the stored offset",
+			"a new row is stored as [len(row)] ++ row and indexed by the offset of its length word",
 			"AddRow does not store [len(row)] ++ row with the index pointing at the length word")
-		// the duplicate branch must re-use exactly the offset recorded for the key
+		okDup := false
 		if idxOld != nil {
-			okDup := false
 			if v := usesObj(info, idxOld.Rhs[0]); v != nil {
 				ast.Inspect(ar.Body, func(n ast.Node) bool {
 					as, ok := n.(*ast.AssignStmt)
 					if !ok || len(as.Lhs) != 2 || len(as.Rhs) != 1 || usesObj(info, as.Lhs[0]) != v {
 						return true
 					}
-					if ix, ok := as.Rhs[0].(*ast.IndexExpr); ok && isField(info, ix.X, "internal/codegen", "table", "rowMap") {
+					if ix, ok := as.Rhs[0].(*ast.IndexExpr); ok && isF(ix.X, keyF) {
 						okDup = true
 					}
 					return true
 				})
 			}
-			c.check(okDup, rule, "codegen.table.AddRow/dedup", p.Pos(idxOld.Pos()), "a duplicate row's index is the offset recorded in rowMap for the same key",
-				"a duplicate row's index is not the offset recorded in rowMap")
 		}
+		// and the key map records the same offset as the index map for a new row
+		okKey := false
+		ast.Inspect(ar.Body, func(n ast.Node) bool {
+			as, ok := n.(*ast.AssignStmt)
+			if ok && len(as.Lhs) == 1 {
+				if ix, ok := as.Lhs[0].(*ast.IndexExpr); ok && isF(ix.X, keyF) && isLenRows(as.Rhs[0]) {
+					okKey = true
+				}
+			}
+			return true
+		})
+		c.check(okDup && okKey, rule, "codegen.table.AddRow/dedup", p.Pos(ar.Pos()), "a duplicate row's index is the offset recorded for the same key, which is the offset its first copy was stored at",
+			"a duplicate row's index is not the offset recorded in the key map for its first copy")
 	}
 	// Array
 	_, arr := p.FuncDecl("internal/codegen", "table.Array")
 	if arr == nil {
 		c.unres(rule, "codegen.table.Array", "", "function not found")
 	} else {
+		defs := localDefs(info, arr.Body)
+		recv := arr.Recv.List[0].Names[0].Name
+		lastAtom := recv + "." + lastF.Name()
 		var loop *ast.ForStmt
 		ast.Inspect(arr.Body, func(n ast.Node) bool {
 			if fs, ok := n.(*ast.ForStmt); ok && loop == nil {
@@ -1099,49 +1197,83 @@ func ruleFMT5(c *Ctx) {
 		})
 		okArr := false
 		why := "no index loop"
-		if loop != nil {
-			boundOK := false
-			if be, ok := loop.Cond.(*ast.BinaryExpr); ok && be.Op == token.LEQ && isField(info, be.Y, "internal/codegen", "table", "maxIndex") {
-				boundOK = true
-			}
+		if loop != nil && loop.Cond != nil {
+			// number of index entries: i from 0 while i < N  (or i <= N-1)
+			var nT map[string]int64
+			var nK int64
 			startOK := false
 			if as, ok := loop.Init.(*ast.AssignStmt); ok && len(as.Rhs) == 1 {
 				if v, ok := intLit(info, as.Rhs[0]); ok && v == 0 {
 					startOK = true
 				}
 			}
+			if be, ok := loop.Cond.(*ast.BinaryExpr); ok {
+				nT, nK = linearForm(info, defs, be.Y)
+				if be.Op == token.LEQ {
+					nK++
+				} else if be.Op != token.LSS {
+					nT = nil
+				}
+			}
+			countOK := startOK && sameLinear(nT, nK, map[string]int64{lastAtom: 1}, 1)
+			// the value appended per index
+			var valObj types.Object
+			ast.Inspect(loop.Body, func(n ast.Node) bool {
+				if call, ok := n.(*ast.CallExpr); ok && builtinName(info, call) == "append" && len(call.Args) == 2 {
+					valObj = usesObj(info, stripConv(info, call.Args[1]))
+				}
+				return true
+			})
 			rebaseOK, missOK := false, false
 			ast.Inspect(loop.Body, func(n ast.Node) bool {
 				as, ok := n.(*ast.AssignStmt)
-				if !ok || len(as.Rhs) != 1 {
+				if !ok || len(as.Rhs) < 1 || len(as.Lhs) < 1 || usesObj(info, as.Lhs[0]) != valObj || valObj == nil {
 					return true
 				}
-				if as.Tok == token.ADD_ASSIGN {
-					if be, ok := ast.Unparen(as.Rhs[0]).(*ast.BinaryExpr); ok && be.Op == token.ADD && isField(info, be.X, "internal/codegen", "table", "maxIndex") {
-						if v, ok := intLit(info, be.Y); ok && v == 1 {
-							rebaseOK = true
+				rhs := as.Rhs[0]
+				if v, ok := intLit(info, rhs); ok && v == -1 {
+					missOK = true
+					return true
+				}
+				switch as.Tok {
+				case token.ADD_ASSIGN:
+					t, k := linearForm(info, defs, rhs)
+					if sameLinear(t, k, map[string]int64{lastAtom: 1}, 1) {
+						rebaseOK = true
+					}
+				case token.ASSIGN, token.DEFINE:
+					t, k := linearForm(info, defs, rhs)
+					// offset + N, where offset is a value read from the index map
+					rest := map[string]int64{}
+					offs := 0
+					for a, cf := range t {
+						if a == lastAtom {
+							rest[a] = cf
+						} else {
+							offs++
+							if cf != 1 {
+								offs = 99
+							}
 						}
 					}
-				}
-				if as.Tok == token.ASSIGN {
-					if v, ok := intLit(info, as.Rhs[0]); ok && v == -1 {
-						missOK = true
+					if offs == 1 && sameLinear(rest, k, map[string]int64{lastAtom: 1}, 1) {
+						rebaseOK = true
 					}
 				}
 				return true
 			})
 			tailOK := false
 			ast.Inspect(arr.Body, func(n ast.Node) bool {
-				if call, ok := n.(*ast.CallExpr); ok && builtinName(info, call) == "append" && call.Ellipsis.IsValid() && call.Pos() > loop.End() && isField(info, call.Args[1], "internal/codegen", "table", "arr") {
+				if call, ok := n.(*ast.CallExpr); ok && builtinName(info, call) == "append" && call.Ellipsis.IsValid() && call.Pos() > loop.End() && isF(call.Args[1], rowsF) {
 					tailOK = true
 				}
 				return true
 			})
-			okArr = boundOK && startOK && rebaseOK && missOK && tailOK
-			why = fmt.Sprintf("loop 0..maxIndex: %v/%v, rebase by maxIndex+1: %v, -1 for missing: %v, rows appended after the index: %v", startOK, boundOK, rebaseOK, missOK, tailOK)
+			okArr = countOK && rebaseOK && missOK && tailOK
+			why = fmt.Sprintf("index vector has last+1 entries: %v, stored offsets rebased by last+1: %v, -1 for missing: %v, rows appended after the index: %v", countOK, rebaseOK, missOK, tailOK)
 		}
 		c.check(okArr, rule, "codegen.table.Array", p.Pos(arr.Pos()),
-			"the index vector has maxIndex+1 entries, each stored offset is rebased by exactly maxIndex+1 (missing rows are -1), and the row store follows",
+			"the index vector has last+1 entries, each stored offset is rebased by exactly last+1 (missing rows are -1), and the row store follows",
 			"index vector / rebase mismatch: "+why)
 	}
 	// readers: same prologue everywhere
@@ -1157,8 +1289,18 @@ func ruleFMT5(c *Ctx) {
 			c.unres(rule, construct, "", "function not found in the instantiated templates")
 			continue
 		}
-		pro := findRowPrologue(ti.Info, fd.Body)
-		c.check(pro != nil, rule, construct, ti.Pos(fd.Pos()),
+		tblName := ""
+		ast.Inspect(fd.Body, func(n ast.Node) bool {
+			if ix, ok := n.(*ast.IndexExpr); ok && tblName == "" {
+				if t, ok := ti.Info.TypeOf(ix.X).Underlying().(*types.Slice); ok {
+					if b, ok := t.Elem().Underlying().(*types.Basic); ok && b.Info()&types.IsInteger != 0 {
+						tblName = exprString(ix.X)
+					}
+				}
+			}
+			return true
+		})
+		c.check(tblName != "" && rowReaderOK(ti.Info, fd.Body, tblName), rule, construct, ti.Pos(fd.Pos()),
 			"row located as i := t[y]; count := t[i]; i++; end := i+count (offset in the index vector, then a length-prefixed row)",
 			"the function does not locate its row with the index-vector / length-prefix prologue the writer produces")
 	}
@@ -1302,54 +1444,26 @@ func ruleFMT6(c *Ctx) {
 			c.unres(rule, variant+"/parse", "", "parse not found")
 			continue
 		}
-		// the if-chain on the action value
-		var chain *ast.IfStmt
-		ast.Inspect(fd.Body, func(n ast.Node) bool {
-			ifs, ok := n.(*ast.IfStmt)
-			if !ok || chain != nil {
-				return true
-			}
-			if be, ok := ifs.Cond.(*ast.BinaryExpr); ok && be.Op == token.EQL {
-				if k, ok := usesObj(ti.Info, be.Y).(*types.Const); ok && k.Name() == "accept" {
-					chain = ifs
-				}
+		// the arms that decode the action value (if-chain or tagless switch)
+		_, shiftArm, reduceArm, actVar := parseArms(ti)
+		if shiftArm == nil || reduceArm == nil {
+			c.bad(rule, variant+"/parse/decode", ti.Pos(fd.Pos()), "parse does not decode action values as `== accept` / `>= 0` (shift) / otherwise (reduce)")
+			continue
+		}
+		okShift, okReduce := false, false
+		ast.Inspect(shiftArm, func(n ast.Node) bool {
+			if kv, ok := n.(*ast.KeyValueExpr); ok && exprString(kv.Key) == "State" && exprString(kv.Value) == actVar {
+				okShift = true
 			}
 			return true
 		})
-		if chain == nil {
-			c.bad(rule, variant+"/parse/decode", ti.Pos(fd.Pos()), "parse does not test `action == accept` first")
-			continue
-		}
-		actVar := exprString(chain.Cond.(*ast.BinaryExpr).X)
-		okShift, okReduce := false, false
-		if e2, ok := chain.Else.(*ast.IfStmt); ok {
-			if be, ok := e2.Cond.(*ast.BinaryExpr); ok && be.Op == token.GEQ && exprString(be.X) == actVar {
-				if v, ok := intLit(ti.Info, be.Y); ok && v == 0 {
-					okShift = true
-				}
+		ast.Inspect(reduceArm, func(n ast.Node) bool {
+			if un, ok := n.(*ast.UnaryExpr); ok && un.Op == token.SUB && exprString(un.X) == actVar {
+				okReduce = true
 			}
-			// shift pushes State: action
-			pushesAction := false
-			ast.Inspect(e2.Body, func(n ast.Node) bool {
-				if kv, ok := n.(*ast.KeyValueExpr); ok && exprString(kv.Key) == "State" && exprString(kv.Value) == actVar {
-					pushesAction = true
-				}
-				return true
-			})
-			okShift = okShift && pushesAction
-			if blk, ok := e2.Else.(*ast.BlockStmt); ok {
-				ast.Inspect(blk, func(n ast.Node) bool {
-					as, ok := n.(*ast.AssignStmt)
-					if ok && len(as.Rhs) == 1 {
-						if un, ok := as.Rhs[0].(*ast.UnaryExpr); ok && un.Op == token.SUB && exprString(un.X) == actVar {
-							okReduce = true
-						}
-					}
-					return true
-				})
-			}
-		}
-		c.check(okShift && okReduce, rule, variant+"/parse/decode", ti.Pos(chain.Pos()),
+			return true
+		})
+		c.check(okShift && okReduce, rule, variant+"/parse/decode", ti.Pos(shiftArm.Pos()),
 			"`== accept` is tested first, then `>= 0` pushes the value as the next state, else the production is `-action`",
 			"the reader does not decode action values as accept / shift (>= 0, next state) / reduce (-action)")
 		// accept value in the reader comes from the bound constant
@@ -1379,35 +1493,50 @@ func ruleFMT6(c *Ctx) {
 	ti := ta.Variants[0]
 	// _Find: pair stride
 	if fd, _ := ti.FuncDecl("_Find"); fd != nil {
-		pro := findRowPrologue(ti.Info, fd.Body)
 		okFind := false
-		if pro != nil {
-			ast.Inspect(fd.Body, func(n ast.Node) bool {
-				fs, ok := n.(*ast.ForStmt)
-				if !ok {
-					return true
-				}
-				as, ok := fs.Post.(*ast.AssignStmt)
-				if !ok || as.Tok != token.ADD_ASSIGN {
-					return true
-				}
-				if v, ok := intLit(ti.Info, as.Rhs[0]); !ok || v != 2 {
-					return true
-				}
-				keyAt0, valAt1 := false, false
-				for _, u := range indexUses(ti.Info, fs.Body, pro.tbl) {
-					if u.base == pro.idx && u.off == 0 {
-						keyAt0 = true
+		keyParam := paramObj(ti.Info, fd, 2)
+		tblParam := paramObj(ti.Info, fd, 0)
+		ast.Inspect(fd.Body, func(n ast.Node) bool {
+			fs, ok := n.(*ast.ForStmt)
+			if !ok || fs.Post == nil {
+				return true
+			}
+			as, ok := fs.Post.(*ast.AssignStmt)
+			if !ok || as.Tok != token.ADD_ASSIGN {
+				return true
+			}
+			if v, ok := intLit(ti.Info, as.Rhs[0]); !ok || v != 2 {
+				return true
+			}
+			cur := exprString(as.Lhs[0])
+			keyAt0, valAt1 := false, false
+			ast.Inspect(fs.Body, func(m ast.Node) bool {
+				switch x := m.(type) {
+				case *ast.BinaryExpr:
+					if x.Op == token.EQL {
+						for _, pr := range [][2]ast.Expr{{x.X, x.Y}, {x.Y, x.X}} {
+							if ix, ok := stripConv(ti.Info, pr[0]).(*ast.IndexExpr); ok && usesObj(ti.Info, ix.X) == tblParam && exprString(stripConv(ti.Info, ix.Index)) == cur && usesObj(ti.Info, stripConv(ti.Info, pr[1])) == keyParam {
+								keyAt0 = true
+							}
+						}
 					}
-					if u.base == pro.idx && u.off == 1 {
-						valAt1 = true
+				case *ast.ReturnStmt:
+					if len(x.Results) >= 1 {
+						if ix, ok := stripConv(ti.Info, x.Results[0]).(*ast.IndexExpr); ok && usesObj(ti.Info, ix.X) == tblParam {
+							if b, off, ok := addConst(ti.Info, ix.Index); ok && b == cur && off == 1 {
+								valAt1 = true
+							}
+						}
 					}
 				}
-				okFind = keyAt0 && valAt1
 				return true
 			})
-		}
-		c.check(okFind, rule, "template/_Find/pairs", ti.Pos(fd.Pos()), "rows are read as (key, value) pairs: key at +0, value at +1, stride 2",
+			if keyAt0 && valAt1 {
+				okFind = true
+			}
+			return true
+		})
+		c.check(okFind, rule, "template/_Find/pairs", ti.Pos(fd.Pos()), "rows are read as (key, value) pairs: key at +0 compared with the searched key, value at +1 returned, stride 2",
 			"_Find does not read (key, value) pairs with stride 2")
 	}
 }
